@@ -6,7 +6,9 @@ import (
 	"context"
 	"errors"
 	"fmt"
+	"os"
 	"runtime"
+	"runtime/debug"
 	"sort"
 	"strings"
 	"sync"
@@ -47,6 +49,9 @@ const (
 	// F-C11-1: see FINDINGS.md
 	c11FpStale = "spawn-while-stopped-predecessor-registered"
 
+	// F-C11-2: "<prefix><function that dereferenced node.value()>"
+	c11FpNilPid = "node-cleared-nil-pid:"
+
 	c11Cap = 15 * time.Second
 )
 
@@ -83,6 +88,7 @@ type c11Case struct {
 func c11Gen(t *rapid.T) c11Case {
 	var c c11Case
 	known := vfkit.Known("C11", c11FpStale)
+	knownNil := vfkit.Known("C11", c11FpNilPid+"findRunningChild")
 	c.NoiseSeed = rapid.Uint64().Draw(t, "noise-seed")
 	c.NoiseProb = rapid.SampledFrom([]float64{0, 0.01, 0.05, 0.05, 0.2}).Draw(t, "noise-prob")
 	c.NoiseSleep = rapid.SampledFrom([]int{0, 50, 300}).Draw(t, "noise-sleep")
@@ -120,6 +126,13 @@ func c11Gen(t *rapid.T) c11Case {
 				cl.Kind = rapid.SampledFrom([]int{c11Kill, c11Shutdown}).Draw(t, "stop-kind")
 				if shape == 3 {
 					cl.Name = base + focus
+				}
+				if knownNil && cl.Name >= 2 {
+					// F-C11-2 while listed: SpawnChild's in-flight findRunningChild panics on
+					// the goroutine of the single flight (unrecoverable, it kills the test
+					// process) when it races the death watch removing that child. Child names
+					// are therefore never stopped; stops go to the top-level name instead.
+					cl.Name -= 2
 				}
 			case cl.Name >= 2:
 				cl.Kind = c11SpawnChild
@@ -172,13 +185,16 @@ type c11Inst struct {
 }
 
 type c11Env struct {
-	sys   *actorSystem
-	par   *PID
-	ids   []string // name index -> PID.ID()
-	clock atomic.Int64
-	mu    sync.Mutex
-	insts []*c11Inst
-	x     *vfkit.X
+	sys *actorSystem
+	par *PID
+	ids []string // name index -> PID.ID()
+	// single-flight keys of the four names (Spawn/SpawnNamedFromFunc: the actor
+	// reference; SpawnChild: the child address)
+	flightKeys []string
+	clock      atomic.Int64
+	mu         sync.Mutex
+	insts      []*c11Inst
+	x          *vfkit.X
 }
 
 func (e *c11Env) tick() int64 { return e.clock.Add(1) }
@@ -347,13 +363,57 @@ func (e *c11Env) settle() bool {
 	}
 }
 
+// c11Stack returns the frames of package actor of the panicking goroutine.
+func c11Stack() string {
+	var keep []string
+	lines := strings.Split(string(debug.Stack()), "\n")
+	for i := 0; i+1 < len(lines); i++ {
+		if strings.Contains(lines[i], "goakt/v4/actor.") && !strings.Contains(lines[i], "c11") {
+			keep = append(keep, strings.TrimSpace(lines[i])+" @ "+strings.TrimSpace(lines[i+1]))
+		}
+	}
+	if len(keep) > 8 {
+		keep = keep[:8]
+	}
+	return strings.Join(keep, "\n")
+}
+
+// c11AwaitGuardians waits until the root, system and user guardians have handled
+// their PostStart. Their handlers use fields that are only set there, while a
+// Terminated (control message, system mailbox) can overtake PostStart: a top-level
+// actor that stops before the user guardian's first turn makes the guardian panic
+// and the system shut itself down (defect outside this property, reported
+// separately). The check keeps out of that window by construction.
+func c11AwaitGuardians(sys *actorSystem) bool {
+	deadline := time.Now().Add(15 * time.Second)
+	for {
+		ready := true
+		for _, g := range []*PID{sys.getRootGuardian(), sys.getSystemGuardian(), sys.getUserGuardian()} {
+			if g == nil || g.ProcessedCount() < 1 || g.schedState.Load() != dispatchIdle {
+				ready = false
+			}
+		}
+		if ready {
+			return true
+		}
+		if time.Now().After(deadline) {
+			return false
+		}
+		time.Sleep(50 * time.Microsecond)
+	}
+}
+
 func c11IsCancel(err error) bool {
 	return errors.Is(err, context.Canceled) || errors.Is(err, context.DeadlineExceeded)
 }
 
 func c11Exec(x *vfkit.X, c c11Case) {
 	ctx := context.Background()
-	sysI, err := NewActorSystem("vfC11", WithLogger(log.DiscardLogger))
+	var logger log.Logger = log.DiscardLogger
+	if os.Getenv("VF_C11_LOG") != "" {
+		logger = log.NewZap(log.WarningLevel, os.Stderr) // diagnosis of a replayed case
+	}
+	sysI, err := NewActorSystem("vfC11", WithLogger(logger))
 	if err != nil {
 		panic(err)
 	}
@@ -366,12 +426,17 @@ func c11Exec(x *vfkit.X, c c11Case) {
 		vfsched.SetNoise(0, 0, 0)
 		_ = sys.Stop(context.Background())
 	}()
+	if !c11AwaitGuardians(sys) {
+		x.Class("inconclusive_guardians_not_started")
+		return
+	}
 	par, err := sys.Spawn(ctx, "par", c11Nop{}, WithLongLived())
 	if err != nil {
 		panic(err)
 	}
 	e.par = par
 	e.ids = []string{sys.actorAddress("n0").String(), sys.actorAddress("n1").String(), par.childAddress("k0").String(), par.childAddress("k1").String()}
+	e.flightKeys = []string{sys.actorReference("n0").String(), sys.actorReference("n1").String(), e.ids[2], e.ids[3]}
 	known := x.Known(c11FpStale)
 
 	var results []*c11Result
@@ -405,7 +470,7 @@ func c11Exec(x *vfkit.X, c c11Case) {
 				defer wg.Done()
 				defer func() {
 					if p := recover(); p != nil {
-						res.panicked = p
+						res.panicked = fmt.Sprintf("%v\n%s", p, c11Stack())
 						res.end = e.tick()
 					}
 				}()
@@ -460,6 +525,19 @@ func c11Exec(x *vfkit.X, c c11Case) {
 			return
 		}
 		results = append(results, round...)
+		if ri == len(c.Rounds)-1 {
+			// A caller whose context was cancelled leaves its spawn running in the
+			// background ("the in-flight spawn completes undisturbed"): join every
+			// flight that may still be in progress before looking at the final state.
+			for _, key := range e.flightKeys {
+				select {
+				case <-sys.spawnActivation.DoChan(key, func() (any, error) { return nil, nil }):
+				case <-time.After(c11Cap):
+					inconclusive = true
+					x.Class("inconclusive_spawn_flight_still_running")
+				}
+			}
+		}
 		if rd.Settle || ri == len(c.Rounds)-1 {
 			if !e.settle() {
 				inconclusive = true
@@ -509,9 +587,29 @@ func c11Judge(x *vfkit.X, e *c11Env, c c11Case, results []*c11Result, known, inc
 	c11Classify(x, c, results)
 
 	for _, r := range results {
-		if r.panicked != nil {
-			x.Failf("spawn-or-stop-call-panics", "%s(%s) panicked: %v\n%s", c11KindNames[r.call.Kind], c11Names[r.call.Name], r.panicked, desc())
+		if r.panicked == nil {
+			continue
 		}
+		// F-C11-2: a lookup takes the node from the tree and dereferences node.value()
+		// without a nil check; the death watch clears the node in between.
+		msg := fmt.Sprint(r.panicked)
+		fp := "spawn-or-stop-call-panics"
+		if strings.Contains(msg, "nil pointer dereference") {
+			for _, site := range []string{"findRunningChild", "Kill", "ActorOf", "ActorExists", "Child", "ReSpawn"} {
+				if strings.Contains(msg, ")."+site+"(") {
+					fp = c11FpNilPid + site
+					break
+				}
+			}
+		}
+		if !x.Known(fp) {
+			x.Failf(fp, "%s(%s) panicked: %v\n%s", c11KindNames[r.call.Kind], c11Names[r.call.Name], r.panicked, desc())
+		}
+		// accepted while listed: the call counts as failed, everything else is still judged
+		x.Class("known_nil_pid_panic")
+		r.err = errors.New("panicked (known finding)")
+		r.pid = nil
+		r.ctxIsLive = false
 	}
 
 	stops := func(name int) []*c11Result {
@@ -536,7 +634,7 @@ func c11Judge(x *vfkit.X, e *c11Env, c c11Case, results []*c11Result, known, inc
 	for _, r := range results {
 		if r.call.Kind > c11SpawnChild {
 			// stops: any error other than "not found"/"dead" is unexpected (PostStop returns nil)
-			if r.err != nil && !errors.Is(r.err, gerrors.ErrActorNotFound) && !errors.Is(r.err, gerrors.ErrDead) && !c11IsCancel(r.err) {
+			if r.err != nil && r.panicked == nil && !errors.Is(r.err, gerrors.ErrActorNotFound) && !errors.Is(r.err, gerrors.ErrDead) && !c11IsCancel(r.err) {
 				x.Failf("stop-call-fails-without-cause", "%s(%s) returned %v\n%s", c11KindNames[r.call.Kind], c11Names[r.call.Name], r.err, desc())
 			}
 			continue
@@ -553,7 +651,8 @@ func c11Judge(x *vfkit.X, e *c11Env, c c11Case, results []*c11Result, known, inc
 				// most when two flights it joined were cancelled by their owners
 				n := 0
 				for _, o := range results {
-					if o.round == r.round && o.call.Kind <= c11SpawnChild && o.call.Name == r.call.Name && o.call.Ctx == c11CtxCancelMid {
+					// flights abandoned by a cancelled caller of an earlier round may still be running
+					if o.round <= r.round && o.call.Kind <= c11SpawnChild && o.call.Name == r.call.Name && o.call.Ctx == c11CtxCancelMid {
 						n++
 					}
 				}
@@ -704,11 +803,33 @@ func c11Judge(x *vfkit.X, e *c11Env, c c11Case, results []*c11Result, known, inc
 			x.Failf("registry-holds-foreign-pid", "%s resolves to a PID that is none of the spawned instances", c11Names[n])
 		}
 		if !v.IsRunning() || in.postEnter != 0 {
-			x.Failf("stopped-actor-registered-after-settle", "after the death watch went idle %s still resolves to the stopped instance %d\n%s", c11Names[n], in.id, desc())
+			dw := e.sys.getDeathWatch()
+			var ws []string
+			for _, w := range e.sys.tree().watchers(v) {
+				ws = append(ws, w.Name())
+			}
+			x.Failf("stopped-actor-registered-after-settle", "after the death watch went idle %s still resolves to the stopped instance %d (watchers of the node=%v; death watch: running=%v suspended=%v processed=%d)\n%s", c11Names[n], in.id, ws, dw.IsRunning(), dw.IsSuspended(), dw.ProcessedCount(), desc())
 		}
 	}
 	if got := e.sys.NumActors(); got != uint64(liveTotal+1) {
+		// third symptom of F-C11-1: addNode fails on the stale node, the death watch
+		// removes it before attachAndPublish looks the canonical instance up, and the
+		// fresh instance is returned counted but unregistered (one count per such instance)
+		if known && got > uint64(liveTotal+1) && got <= uint64(liveTotal+1+len(tolerated)) {
+			x.Class("known_stale_predecessor_count_drift")
+			c11KnownHit(x, known, len(tolerated))
+			return
+		}
 		x.Failf("actor-count-mismatch", "NumActors()=%d, running user actors=%d (the parent and %d spawned instances)\n%s", got, liveTotal+1, liveTotal, desc())
+	}
+	c11KnownHit(x, known, len(tolerated))
+}
+
+// c11KnownHit makes a case in which the accepted shape of F-C11-1 occurred (and
+// nothing else went wrong) count as an observation of the known finding.
+func c11KnownHit(x *vfkit.X, known bool, tolerated int) {
+	if known && tolerated > 0 {
+		x.Failf(c11FpStale, "%d instance(s) started while the non-running predecessor was still registered and were left running outside the tree", tolerated)
 	}
 }
 
@@ -798,5 +919,6 @@ func TestVF_C11_names(t *testing.T) {
 		Rule: "cases = one real ActorSystem, 0..4 names pre-spawned, then 1..3 rounds of 2..8 goroutines released together, each making one call of Spawn/SpawnNamedFromFunc (names n0,n1), SpawnChild (k0,k1 under one parent), Kill(name) or PID.Shutdown, with live / cancelled / cancelled-mid-call contexts, staggering, PreStart think times and E4 schedule noise; non-trivial = in some round two spawns of the same name, or a spawn and a stop of the same name, overlap (measured call intervals); distinct = distinct generated programs (incl. noise profile)",
 		Gen:  c11Gen, Exec: c11Exec,
 		ReplayReps: 30,
+		CrashSafe:  true,
 	})
 }
